@@ -543,3 +543,26 @@ free piece:
 +--------+-------+-------------+-----------------------------------+
 ```
 */
+
+// verification probe: the constants and the sizing code of this file, without I/O.
+#[cfg(abyssiniandb_verif)]
+pub(crate) mod verif {
+    use super::*;
+    pub fn consts() -> String {
+        format!(
+            "val_header_size {}\nval_signature {:?}\nval_chunk_size {}\nval_size_ary {:?}\nval_free_offset {:?}\n",
+            DAT_HEADER_SZ, DAT_HEADER_SIGNATURE, CHUNK_SIZE, REC_SIZE_ARY, REC_SIZE_FREE_OFFSET
+        )
+    }
+    /// (encoded size field length, piece length, rounded slot size) for every value length 0..=max.
+    pub fn sizing(max: u32, f: &mut dyn FnMut(u32, u32, u32, u32)) {
+        let mgr = PieceMgr::new(&REC_SIZE_FREE_OFFSET, &REC_SIZE_ARY);
+        let mut piece = ValuePiece::with_value(&[]);
+        for len in 0..=max {
+            piece.value.resize(len as usize, 0u8);
+            let (epl, pl, _) = piece.encoded_piece_size();
+            let sz = mgr.roundup(ValuePieceSize::new(epl + pl));
+            f(len, epl, pl, sz.as_value());
+        }
+    }
+}
